@@ -183,6 +183,18 @@ Theorem C07_refused_commits_leave_nothing : forall gh gg Env att st c p (env : E
 Proof. intros gh gg. exact (collect_moves_f_regions gh gg QT KT QT_step). Qed.
 Print Assumptions C07_refused_commits_leave_nothing.
 
+(* the log is the trace of the attempt function: att is consulted exactly once per logged attempt, in
+   log order; an attempt is logged AtOk exactly when att answered true (a commit the block list
+   accepts never fails in the metadata); the environment returned is att folded over the log; the
+   source slot of every attempt - refused ones too - is a non-temporary entry of the original table *)
+Theorem C07_attempt_log_is_trace : forall gh gg Env att st c p (env : Env),
+  WFg gh gg st -> pass_running p ->
+  let X := collect_moves_f Env att st c p env in
+  strace Env att env (log_f X) (env_f X) /\
+  Forall (fun a => exists e, entry st (at_slot a) = Some e /\ u_temp e = false) (log_f X).
+Proof. intros gh gg. exact (collect_moves_f_strace gh gg QT KT QT_step). Qed.
+Print Assumptions C07_attempt_log_is_trace.
+
 Theorem C07_both_ends_reserved_gran : forall gh gg st m,
   WFg gh gg st -> reserved st m ->
   exists bs bd,
